@@ -1,5 +1,5 @@
 """C05 - every aligned read is accounted for; region splitting loses or duplicates none."""
-from collections import Counter
+from collections import Counter, defaultdict
 
 from hypothesis import strategies as st
 
@@ -47,7 +47,7 @@ def classify(sc, min_mapq, no_secondary, annotated):
     verdict = {}
     for n, lst in per.items():
         reportable = [x for x in lst if x != "MUSTNOT"]
-        if len(reportable) == 1 and reportable[0] == "MUST":
+        if "MUST" in reportable:
             verdict[n] = "MUST"
         elif not reportable:
             verdict[n] = "MUSTNOT"
@@ -77,6 +77,23 @@ def check_accounting(sc, res, ctx, case, annotated, min_mapq=None, no_secondary=
         tl = parse.data_lines(tsvp)
         outs.append(("read_assignments.tsv", set(l.split("\t")[0] for l in tl), tl))
     special = set(sc.get("special") or [])
+    if not annotated:
+        # without an annotation no alignment of a read says more than another: the record of a read that has a primary
+        # alignment passing the filters is the record of that alignment
+        where = defaultdict(list)
+        for l in bed_lines:
+            t = l.split("\t")
+            where[t[3]].append((t[0], int(t[1]), int(t[2])))
+        for r in sc["reads"]:
+            if r.get("c") is None or r["f"] & (4 | 256 | 2048) or verdict.get(r["n"]) != "MUST" or \
+                    r.get("q", 60) < max(5, min_mapq or 0):
+                continue
+            a, b = r["p"], R.ref_end_of(r)
+            if r["n"] in where and not any(c == r["c"] and s < b and a < e for c, s, e in where[r["n"]]):
+                ctx.violation("C05:primary-alignment-replaced-by-another-alignment-of-the-read",
+                              {"read": r["n"], "primary": [r["c"], a, b, r.get("q", 60)], "reported": where[r["n"]],
+                               "other_records": [[x["c"], x["p"], R.ref_end_of(x), x["f"], x.get("q", 60)]
+                                                 for x in sc["reads"] if x["n"] == r["n"] and x is not r]}, case)
     for fname, names, lines in outs:
         missing = must - names
         if missing:
@@ -209,6 +226,29 @@ def flag_scenarios(draw):
         if r is not None:
             r["q"] = src.choice([0, 1, 5, 60])
             reads.append(r)
+    # multi-mapped reads outside genes: a primary alignment and a secondary one (MAPQ 0) that is longer, equally long or
+    # shorter, upstream or downstream of it, on the same or on another contig
+    for _ in range(src.int(0, 3)):
+        k += 1
+        r = S.intergenic_read(src, sc, "r%d" % k)
+        if r is None:
+            continue
+        r["q"] = 60
+        reads.append(r)
+        for j in range(src.int(1, 2)):
+            s2 = S.intergenic_read(src, sc, "r%d" % k)
+            if s2 is None:
+                continue
+            blocks = R.cigar_blocks(s2["p"], s2["cg"])
+            a, b = blocks[0][0], blocks[-1][1]
+            if b - a > 120 and src.bool(0.7):
+                # a spliced secondary alignment of three blocks
+                third = (b - a) // 3
+                s2 = R.make_read("r%d" % k, s2["c"], [[a, a + third - 12], [a + third + 8, a + 2 * third - 10],
+                                                      [a + 2 * third + 10, b]], flag=s2["f"], mapq=0)
+            s2["f"] |= 256
+            s2["q"] = 0
+            reads.append(s2)
     for _ in range(src.int(0, 3)):
         k += 1
         reads.append(S.unmapped_read("r%d" % k))
